@@ -241,7 +241,7 @@ func (p *Prog) generateOne(fn *ssa.Function, sp *spec.FuncSpec, splits []splitVa
 	tt := vc.tt
 	vc.cmd("(declare-const alloc0 Int)")
 	vc.cmd(fmt.Sprintf("(assert (>= alloc0 %d))", maxGlobals))
-	st := &State{H: map[string]Term{}, Alloc: Term{"alloc0", SInt}, Base: &base{id: "0"}}
+	st := &State{H: map[string]Term{}, Alloc: Term{"alloc0", SInt}, Base: &base{id: "0", alloc: "alloc0"}}
 	f := &frame{vc: vc, fn: fn, pfx: "", vals: map[ssa.Value]Term{}, tup: map[ssa.Value][]Term{}, spec: sp, top: true, rangeOf: map[ssa.Value]*rangeInfo{}}
 	// parameters
 	names := map[string]SV{}
@@ -667,7 +667,7 @@ func (vc *VC) NumCmds() int { return len(vc.cmds) }
 func (p *Prog) GroundQuery(fn *ssa.Function, sp *spec.FuncSpec, clause *spec.Clause, paramVals, resultVals []Term) (string, error) {
 	vc := p.newVC(fn, sp)
 	vc.cmd("(declare-const alloc0 Int)")
-	st := &State{H: map[string]Term{}, Alloc: Term{"alloc0", SInt}, Base: &base{id: "0"}}
+	st := &State{H: map[string]Term{}, Alloc: Term{"alloc0", SInt}, Base: &base{id: "0", alloc: "alloc0"}}
 	names := map[string]SV{}
 	for i, prm := range fn.Params {
 		if i < len(paramVals) {
